@@ -935,6 +935,38 @@ impl StrengthReducedU64 {
     }
 }
 
+/// Verification hooks (only compiled with `--cfg datafusion_verif`): expose the
+/// private strength-reduced remainder and the private channel module so that an
+/// external model checker can drive them directly.
+#[cfg(datafusion_verif)]
+pub mod verif_hooks {
+    pub use super::distributor_channels as channels;
+
+    /// `partition_indices` of the private `StrengthReducedU64` for `divisor`.
+    pub fn strength_reduced_partition_indices(
+        divisor: u64,
+        hashes: &[u64],
+        indices: &mut [Vec<u32>],
+    ) {
+        super::StrengthReducedU64::new(divisor).partition_indices(hashes, indices)
+    }
+
+    /// `(quotient, remainder)` computed by the private reciprocal path for a
+    /// non-power-of-two divisor; `None` when the mask path is selected.
+    pub fn strength_reduced_quotient(divisor: u64, value: u64) -> Option<(u64, u64)> {
+        match super::StrengthReducedU64::new(divisor) {
+            super::StrengthReducedU64::PowerOfTwo { .. } => None,
+            super::StrengthReducedU64::Reciprocal {
+                divisor,
+                reciprocal,
+            } => {
+                let q = super::StrengthReducedU64::quotient(value, reciprocal);
+                Some((q, value.wrapping_sub(q.wrapping_mul(divisor))))
+            }
+        }
+    }
+}
+
 impl BatchPartitioner {
     /// Create a new [`BatchPartitioner`] for hash-based repartitioning.
     ///
